@@ -527,6 +527,8 @@ pub enum Step {
     Save,
     /// the storage medium becomes writable / unwritable
     EnvW(bool),
+    /// the field behind the I/O driver presents these input bytes
+    Field(Vec<u8>),
     /// new process: build, set store, optional `restart(mode)` as run.rs does, load
     Power(Option<Mode>),
 }
@@ -546,6 +548,8 @@ pub struct Case {
     pub scripted_store: bool,
     /// the medium is unwritable at the start (file store: the directory does not exist yet)
     pub store_starts_unwritable: bool,
+    /// sized process images (inputs, outputs, memory) with a registered field driver
+    pub driver: Option<(usize, usize, usize)>,
 }
 
 impl Case {
